@@ -15,3 +15,41 @@ Theorem snapshot_arith_int32_refuted :
 Proof. exact snapshot_arith_int32_refuted_lemma. Qed.
 
 Print Assumptions snapshot_arith_no_overflow.
+
+(* ---- exception-freedom of other modelled cores, re-exported here because a raised assertion or
+   overflow in them would be an internal exception of the compiler (the statements are proved in the
+   developments of C19, C09, C05, C07 and C08; importing them makes C13 fail when they fail) ---- *)
+From VV Require props.C19 props.C09 props.C05 props.C07.
+From VV Require Import gen.GenFpMath gen.GenScaling model.Scaling model.Alloc model.MlwDecode
+  proofs.AllocHillProofs proofs.AllocHillSearchProofs proofs.AllocHillOutcomeProofs.
+
+(* fp_math.exp_on_negative_values (softmax / exp tables): no assert fires and no NumPy overflow happens
+   for any non-positive int32 argument *)
+Theorem fp_math_exp_no_exception :
+  forall a, in_int 32 a = true -> a <= 0 ->
+  exists r, GenFpMath.exp_on_negative_values a = Some r /\ in_int 32 r = true /\ 0 <= r.
+Proof. exact C19.exp_on_negative_values_total. Qed.
+
+(* scaling.quantise_pooling_scale: `assert shift < (1 << 6)` cannot fire for any window the
+   supported-operator checks admit and any rescale the call sites pass *)
+Theorem pooling_scale_no_assert :
+  forall n rb, (1 <= n <= 65536 /\ -16 <= rb) \/ (n = 1 /\ -32 <= rb) ->
+    exists scale, GenScaling.quantise_pooling_scale n rb = Some (scale, 31 - rb + pool_k n) /\
+                  31 - rb + pool_k n <= 63.
+Proof. exact C09.pooling_assert_holds. Qed.
+
+(* HillClimb: every run, for every random stream, ends normally within its iteration bound (no
+   ValueError from randint, no IndexError, no endless predecessor walk) *)
+Theorem hillclimb_no_exception :
+  forall (S : Type) (next : S -> Z * S) lrs mi limit s,
+  Forall hc_wf lrs -> footprint_bound lrs <= 2 ^ 63 ->
+  exists addrs best iters draws,
+    hillclimb S next lrs mi limit s = Ok (addrs, best, iters, draws) /\ 0 <= iters <= hc_iteration_bound lrs mi.
+Proof. exact C05.hillclimb_terminates. Qed.
+
+(* the model of the reference weight-stream decoder always terminates *)
+Theorem mlw_decode_model_total : forall strict buf, decode strict buf <> DFuel.
+Proof. exact C07.decode_total. Qed.
+
+Print Assumptions fp_math_exp_no_exception.
+Print Assumptions hillclimb_no_exception.
